@@ -127,6 +127,9 @@ def check(ctx) -> None:
     ctx.rule("C07.deps", "ABSINT: control dependencies look through unlabelled edges, terminate on cycles; root dependence through unlabelled edges only", floor=5)
     ctx.rule("C07.graph", "ABSINT: _build_graph over representative shapes: no failure, roots, edges, no orphan outside the roots", floor=5)
     ctx.rule("C07.update", "ABSINT: _GoalsManager.update makes every goal of every shape current; uncovered goals stay current", floor=6)
+    ctx.rule("C07.node-key", "a basic-block node (equal by index only) keys a mapping only among the blocks of one code object", floor=1)
+    for n, ok, desc in I.node_key_uses(repo, ["pynguin.ga"]):
+        ctx.check("C07.node-key", n, ok, f"{desc}: predicates of one code object are looked up with the blocks of another - goals hang below the wrong parent (or the lookup fails)", what=desc, stmt=f"[node-key] {desc[:80]}")
     nx = _nx()
     edge_key = repo.fold(repo.module(CF), repo.module(CF).assigns["EDGE_DATA_BRANCH_VALUE"])
     if not isinstance(edge_key, str):
